@@ -164,6 +164,10 @@ impl PathSliceList {
                                 write!(w, r#"2,{},{}"#, gen_lit_str(path), gen_lit_str(mod_name))?
                             }
                         },
+                        Some(PathSlice::Condition(..)) => {
+                            // the members that follow a conditional are appended to either branch
+                            need_comma = false;
+                        }
                         _ => return Ok(false),
                     }
                 }
